@@ -99,7 +99,7 @@ def write_cfg(d, name, base, overrides=None, drop_invariants=(), add=()):
     """Copy cfg `base` to `name`, overriding CONSTANT assignments `K = v`."""
     src = open(os.path.join(SPECS, base)).read()
     for k, v in (overrides or {}).items():
-        src, n = re.subn(r"(?m)^(\s*%s\s*=\s*).*$" % re.escape(k), lambda m: m.group(1) + str(v), src)
+        src, n = re.subn(r"(?m)^(\s*%s\s*(?:=|<-)\s*).*$" % re.escape(k), lambda m: m.group(1) + str(v), src)
         if n == 0:
             raise Infra("cfg %s has no constant %s" % (base, k))
     for inv in drop_invariants:
@@ -124,6 +124,8 @@ def tlc(d, module, cfg, workers=None, timeout=600, simulate=None, depth=None, de
     jopts = []
     if deque:
         jopts.append("-Dtlc2.tool.queue.IStateQueue=StateDeque")
+        jopts.append("-XX:ParallelGCThreads=2")
+        jopts.append("-Xmx3g")
     if xss:
         jopts.append("-Xss512m")
     if jopts:
@@ -378,3 +380,24 @@ def run_core_family(res, work, family, tier, seed, parts=8, timeout=1800, clause
     if other:
         res.extra["other_property_observations"] = other
     return results
+
+
+def tallycore(work, res, label, expect=None, deadlock=False, timeout=1500, workers=None, **overrides):
+    """Model-check TallyCore (MCTallyCore.tla) with constant overrides; expect = invariant that must be violated (non-vacuity)."""
+    name = "tc_%s.cfg" % re.sub(r"[^A-Za-z0-9]", "_", label)
+    ov = {k: v for k, v in overrides.items()}
+    if deadlock:
+        ov["CHECK_DEADLOCK"] = "TRUE"
+    src = open(os.path.join(SPECS, "TallyCore.cfg")).read()
+    for k, v in ov.items():
+        if k == "CHECK_DEADLOCK":
+            src = src.replace("CHECK_DEADLOCK FALSE", "CHECK_DEADLOCK TRUE")
+            continue
+        src, n = re.subn(r"(?m)^(\s*%s\s*(?:=|<-)\s*).*$" % re.escape(k), lambda m: m.group(1) + str(v), src)
+        if n == 0:
+            raise Infra("TallyCore.cfg has no constant %s" % k)
+    with open(os.path.join(work, name), "w") as f:
+        f.write(src)
+    if expect:
+        return mc_expect_violation(work, "MCTallyCore.tla", name, expect, label, res, timeout=timeout, workers=workers)
+    return mc_expect_ok(work, "MCTallyCore.tla", name, "TallyCore " + label, res, timeout=timeout, workers=workers)
